@@ -106,6 +106,40 @@ def run(ck, prog, ctx):
             cut = [m for m in chain if m in TRUNCATING_ADAPTORS]
             ck.ob("ROLE", "hpoa/every-line", not cut, "disease_to_hpo::parse looks at %s" % ("every line of phenotype.hpoa (comment and foreign lines are ignored line by line)" if not cut else "the lines that remain after `%s`: a disease row at the top of the file is silently dropped" % ", ".join(cut)), where=pr.where(t.line))
 
+    # ------------------------------------------------------------------ ROLE: every stanza / line of a file is looked at
+    # positional adaptors (take / skip / *_while / map_while / step_by / nth ...) in the pipeline that feeds a parsing loop drop
+    # elements by POSITION: whatever follows the first non-matching stanza, or precedes the n-th line, is never parsed.  Selection by
+    # content (filter, filter_map, an `if` inside the loop) is the parsers' business and not restricted here.
+    from engines import for_loops as _for_loops, HARD_TRUNCATIONS as _HT, loop_early_exits as _early
+    n_el = 0
+    for fid, what, src in ((O + "read_obo_file", "stanza of hp.obo", ("split",)), (O + "add_connections", "line of a [Term] stanza", ("lines", "split")),
+                           (G + "parse", "line of the gene file", ("lines",)), (D + "parse", "line of phenotype.hpoa", ("lines",))):
+        fb_ = prog.body(fid)
+        if fb_ is None:
+            continue
+        fam_ = prog.family(fb_)
+        pipes = []
+        for fbx in fam_:
+            for lp in _for_loops(fbx):
+                pipes.append((fbx, lp["line"], adaptor_chain(fbx, pvn, lp["iter"]), lp))
+            for bi, t in fbx.calls():
+                if t.callee.trait == "std::iter::Iterator" and t.callee.method in ("for_each", "try_for_each", "collect", "extend", "fold", "try_fold", "count", "last") and t.args:
+                    pipes.append((fbx, t.line, [t.callee.method] + adaptor_chain(fbx, pvn, t.args[0]), None))
+                elif t.callee.method == "extend" and len(t.args) == 2:
+                    pipes.append((fbx, t.line, adaptor_chain(fbx, pvn, t.args[1]), None))
+        pipes = [p_ for p_ in pipes if any(m in p_[2] for m in src)]
+        if not pipes:
+            ck.undecided("ROLE", "every-element/%s" % fb_.short, "the iteration over the %ss is not recognised in %s" % (what.split(" of ")[0], fb_.short), where=fb_.where())
+            continue
+        for fbx, line, chain, lp in pipes:
+            cut = [m for m in chain if m in _HT or m in ("map_while", "take_while", "skip_while")]
+            early = _early(fbx, lp) if lp is not None else []
+            n_el += 1
+            ck.ob("ROLE", "every-element/%s" % fb_.short, not cut and not early, "%s looks at %s" % (fb_.short, ("every %s" % what) if not cut and not early else
+                  ("the %ss that remain after `%s`: everything behind the first element it rejects (or before the position it skips to) is silently ignored" % (what.split(" of ")[0], ", ".join(cut)) if cut
+                   else "the %ss up to an early exit of the loop (line %s)" % (what.split(" of ")[0], fbx.blocks[early[0][0]].term.line))), where=fbx.where(line))
+    ck.floor("ROLE", "parsing loops examined for completeness", n_el, 3)
+
     # ------------------------------------------------------------------ ROLE: the per-line parsers receive lines WITHOUT their terminator
     pvm = Prov(prog, inline=False)
     n_ls = 0
